@@ -736,7 +736,8 @@ func (s *seqState) matchEvents(op *Op, evs []Event) {
 // tick before T must have been reported.
 func (s *seqState) checkSwept() {
 	m := s.m
-	for k, e := range m.m {
+	for _, k := range sortedKeys(m.m) {
+		e := m.m[k]
 		if e.ExpNever || e.Shortened {
 			continue
 		}
@@ -773,7 +774,7 @@ func (s *seqState) compareState(keys int) {
 	for k := 0; k < keys; k++ {
 		check(k)
 	}
-	for k := range s.extraKey {
+	for _, k := range sortedKeys(s.extraKey) {
 		check(k)
 	}
 	for k := range s.flexExp {
